@@ -21,8 +21,10 @@ EXPLANATION = (
     "figure; (R6) every request parameter that changes what is sent and can raise the risk is visible to the "
     "controls when they run; (R7) at every exposure call the excluded order and the prospective order are not "
     "the same object; (R8) exposure skips exactly PENDING/VIOLATION/EXPIRED orders, counts matched amounts of "
-    "completed orders and unmatched amounts of live ones only; (R9) the control-free placement path "
-    "(execute=False) is used only by the two replace handlers. Not decided: the exposure arithmetic and the "
+    "completed orders and unmatched amounts of live ones only, remembers nothing between calls, and every "
+    "starting-price order adds its whole liability to the outcome it loses on; (R9) the control-free placement path "
+    "(execute=False) is used only by the two replace handlers, and the replacing order takes its price and size from "
+    "the place half of the replace report. Not decided: the exposure arithmetic and the "
     "second sentence of the property (loss bound over all later histories)."
 )
 ASSUMPTIONS = ["strategies place orders through market.place_order / replace_order or a Transaction (public API)"]
@@ -285,9 +287,12 @@ def run(ctx, rep):
         else:
             sp_bad.append(utext(st))
     tot = {}
-    for s2 in walk_nodes(ge.node.body, ast.Assign):
-        if utext(s2.targets[0]) in ("worst_possible_profit_on_win", "worst_possible_profit_on_lose"):
-            tot[utext(s2.targets[0])] = s2.value
+    from sa.kinds import resolve_local
+    for r2 in walk_nodes(ge.node.body, ast.Return):
+        if isinstance(r2.value, ast.Dict):
+            for k2, v2 in zip(r2.value.keys, r2.value.values):
+                if isinstance(k2, ast.Constant) and k2.value in ("worst_possible_profit_on_win", "worst_possible_profit_on_lose"):
+                    tot[k2.value] = resolve_local(ge, v2)   # the figure as returned, named by a local or written in place
     good_sp = not sp_bad and set(sp_terms) == {"BACK", "LAY"} and all(len(v) == 1 for v in sp_terms.values())
     if good_sp:
         b, l = list(sp_terms["BACK"])[0], list(sp_terms["LAY"])[0]
